@@ -178,6 +178,7 @@ fn cmd_net_replay(a: &HashMap<String, String>) -> i32 {
             mode: pool.mode.clone(),
             verify: cfg["verify"].as_bool().unwrap_or(false),
             plan,
+            refused: false,
         };
         n += 1;
         let r = net::run(pool.clone(), &s, seed + lineno as u64);
@@ -215,6 +216,7 @@ fn cmd_net_trace(a: &HashMap<String, String>) -> i32 {
             mode: pool.mode.clone(),
             verify: sn % 3 == 0,
             plan: net::random_plan(&transport, &pool, sd, bytes, writes),
+            refused: transport == "udp" && sn < 4,
         };
         let r = net::run(pool, &s, sd);
         for e in r.events {
